@@ -100,6 +100,59 @@ func (c *Ctx) PeerGate(prop string) {
 			break
 		}
 		if isHandler[fn] {
+			// the id may come from a wrapper (id, known) := h.knownSender(ctx): known is true only for a non-zero looked-up id
+			if ex, isEx := idVal.(*ssa.Extract); isEx && ex.Index == 0 {
+				if w, isCall := ex.Tuple.(*ssa.Call); isCall && w.Parent() == fn && w.Call.StaticCallee() != nil && prog.InModule(w.Call.StaticCallee()) && w.Call.StaticCallee().Blocks != nil {
+					W := w.Call.StaticCallee()
+					if W.Signature.Results().Len() != 2 {
+						return false, "the sender id comes from " + Fn(W) + ", which is not of the form (id, known)", nil
+					}
+					nTrue := 0
+					for _, ret := range an.Returns(W) {
+						k, isK := an.Result(ret, 1).(*ssa.Const)
+						if !isK {
+							return false, "the wrapper " + Fn(W) + " returns a computed 'known' flag", nil
+						}
+						if an.Term(k) != "true" {
+							continue
+						}
+						nTrue++
+						idCall2, ok := an.Result(ret, 0).(*ssa.Call)
+						if !ok || idCall2.Call.StaticCallee() == nil || !prog.InModule(idCall2.Call.StaticCallee()) {
+							return false, "the wrapper " + Fn(W) + " reports a known sender with an id that is not the result of the peer lookup", nil
+						}
+						lookups[idCall2.Call.StaticCallee()] = true
+						target := ssa.Instruction(ret)
+						if x, path := an.Cut(an.CutQuery{From: an.Entry(W), Target: func(i ssa.Instruction) bool { return i == target },
+							AcceptEdge: func(b *ssa.BasicBlock, i int, a *an.Atom) bool {
+								if a == nil {
+									return false
+								}
+								if a.Op == "!=" && ((a.LV == ssa.Value(idCall2) && an.IsConstInt(a.RV, 0)) || (a.RV == ssa.Value(idCall2) && an.IsConstInt(a.LV, 0))) {
+									return true
+								}
+								return a.Op == "<" && an.IsConstInt(a.LV, 0) && a.RV == ssa.Value(idCall2)
+							}}); x != nil {
+							return false, "the wrapper " + Fn(W) + " can report a known sender for id 0", an.PathString(c.Pos, path)
+						}
+					}
+					if nTrue == 0 {
+						return false, "the wrapper " + Fn(W) + " never reports a known sender", nil
+					}
+					var known ssa.Value
+					for _, r := range *w.Referrers() {
+						if e2, ok := r.(*ssa.Extract); ok && e2.Index == 1 {
+							known = e2
+						}
+					}
+					x, path := an.Cut(an.CutQuery{From: an.Entry(fn), Target: func(i ssa.Instruction) bool { return i == site },
+						AcceptEdge: func(b *ssa.BasicBlock, i int, a *an.Atom) bool { return a != nil && a.Op == "true" && known != nil && a.LV == known }})
+					if x != nil {
+						return false, "reachable although the caller is not a configured peer (the wrapper's 'known' flag is not tested)", an.PathString(c.Pos, path)
+					}
+					return true, "", nil
+				}
+			}
 			idCall, ok := idVal.(*ssa.Call)
 			if !ok || idCall.Call.StaticCallee() == nil || !prog.InModule(idCall.Call.StaticCallee()) || idCall.Parent() != fn {
 				return false, "the sender id handed to the key-generation process is not the result of the peer lookup: " + an.Term(idVal), nil
